@@ -98,6 +98,7 @@ class C16(Prop):
         kind_name = f"{'toggle' if toggle else 'plain'}-{'separate' if special else 'joint'}"
         from ..ref import clock
 
+        clock.set_zone(env.ZONES[i % len(env.ZONES)])
         now = float(r.randrange(1_600_000_000, 1_900_000_000))
         with clock.virtual_time(now):
             ts = int(round(now))
